@@ -3,7 +3,7 @@
    Directives used: those of ExtrOcamlBasic only (bool, option, unit, list, prod, sumbool, sumor);
    no Extract Constant; Z / positive stay as extracted inductives. *)
 Require Import ExtrOcamlBasic.
-Require Import Base Fixed Panic Curve Bank BankOps Risk Handlers TransferFee XrateConsts Xrate Price ConfigGen Config Emode ConfigPaths ConfigHealth AnchorTypes AnchorSem Gate AccountsTable HandlerFacts Spec AuthCell AuthFixture TxConstants Tx TxToy.
+Require Import Base Fixed Panic Curve Bank BankOps Risk Handlers TransferFee XrateConsts Xrate Price ConfigGen Config Emode ConfigPaths ConfigHealth PrivGen Privilege Deleverage AnchorTypes AnchorSem Gate AccountsTable HandlerFacts Spec AuthCell AuthFixture TxConstants Tx TxToy.
 Extraction Language OCaml.
 Separate Extraction
   p_pause p_unpause p_unpause_if_expired p_is_expired p_can_pause c_is_expired ix_propagate
@@ -30,13 +30,14 @@ Separate Extraction
   ix_configure_emode ix_clone_emode ix_propagate_staked ix_migrate_curve ix_group_set_caps
   ix_init_staked_settings ix_edit_staked_settings es_zeroed account_health account_health_no_emode
   probe_position apply_reqs OP_KILLED DEFAULT_INIT_MAX_EMODE_LEVERAGE
-  DEFAULT_MAINT_MAX_EMODE_LEVERAGE cell fixture_names fixture_accounts fixture_now0 accounts_table
-  tw_owner tw_disc tw_setnum tw_flag tw_setkey tw_del tw_clone tw_now mkWorld mkBinding
-  PROG_MARGINFI PROG_SYSTEM PROG_TOKEN PROG_TOKEN22 PROG_KAMINO PROG_FARMS PROG_DRIFT PROG_SOLEND
-  PROG_ATA PROG_STRANGER SYSVAR_INSTRUCTIONS SYSVAR_RENT validate_bank_state
-  weighted_asset_value_rule opstate_of_Z num_field acct_of is_signer_authorized
-  account_not_frozen_for_authority validate_ix_first validate_ix_last validate_ixes_exclusive
-  validate_instructions check_flashloan_can_start flags_of_Z Z_of_flags toy_exec_tx_r toy_h_end
-  toy_init toy_maint toy_equity toy_world top proxy mk_CB mk_FG mk_SL mk_EL mk_SD mk_ED mk_SF mk_EF
-  mk_WD mk_RP mk_BR mk_DP mk_IR mk_LQ mk_HB mk_TR IX_IR IX_SL IX_EL IX_WD IX_RP IX_SE IX_WE IX_KW
-  IX_DW IX_SF IX_EF IX_SD IX_ED IX_BR IX_DP IX_LQ IX_HB IX_TR IX_SW IX_PH IX_KRR IX_KRO IX_DUS.
+  DEFAULT_MAINT_MAX_EMODE_LEVERAGE pstep zeros dv_tx dv_purge configure_withdrawal_limit positions
+  wrun cell fixture_names fixture_accounts fixture_now0 accounts_table tw_owner tw_disc tw_setnum
+  tw_flag tw_setkey tw_del tw_clone tw_now mkWorld mkBinding PROG_MARGINFI PROG_SYSTEM PROG_TOKEN
+  PROG_TOKEN22 PROG_KAMINO PROG_FARMS PROG_DRIFT PROG_SOLEND PROG_ATA PROG_STRANGER
+  SYSVAR_INSTRUCTIONS SYSVAR_RENT validate_bank_state weighted_asset_value_rule opstate_of_Z
+  num_field acct_of is_signer_authorized account_not_frozen_for_authority validate_ix_first
+  validate_ix_last validate_ixes_exclusive validate_instructions check_flashloan_can_start
+  flags_of_Z Z_of_flags toy_exec_tx_r toy_h_end toy_init toy_maint toy_equity toy_world top proxy
+  mk_CB mk_FG mk_SL mk_EL mk_SD mk_ED mk_SF mk_EF mk_WD mk_RP mk_BR mk_DP mk_IR mk_LQ mk_HB mk_TR
+  IX_IR IX_SL IX_EL IX_WD IX_RP IX_SE IX_WE IX_KW IX_DW IX_SF IX_EF IX_SD IX_ED IX_BR IX_DP IX_LQ
+  IX_HB IX_TR IX_SW IX_PH IX_KRR IX_KRO IX_DUS.
